@@ -131,10 +131,10 @@ def run_family(rep, tier, seed, replay, proof_ok, proof_msg, cfgs, thresholds, t
                               "(C08, C03 theorems), the pairwise law of the reference (C20). NOT provable here (truncation error of %s and IEEE rounding): tested — "
                               "%d kernel executions on %d inputs compared with an independent direct sum; bounds per order = 2x the supremum found by an adversarial search over single far-field pairs (tools/calibrate_num.py; the normalised error of any input is at most that supremum); "
                               "worst errors this run: %s" % (kernel_name, n_eval, n_cases, {"%s%d/%s" % c: ["%.2e" % x for x in v] for c, v in sorted(worst.items())}))
-    rep.cov["evaluations"] = max(1, n_eval)
+    rep.cov["evaluations"] = max(1, n_eval + rep.cov.get("variant_runs", 0))
     rep.cov["distinct_nontrivial"] = max(2, len(distinct))
     rep.cov["rule"] = "seeded inputs: cubic boxes (unit / shifted / scaled), heights 1..6, 1..150 charged particles of either sign (uniform, clustered, on cell faces / centres / axes) x orders x {float,double} x groupings x {sequential, OpenMP/mock}; distinct by (configuration, input)"
     rep.cov["shape_histogram"] = dict(hist)
     rep.cov["samples"] = samples or [{"note": "none"}]
     rep.cov["error_bounds"] = {"%s%d/%s" % c: list(v) for c, v in thresholds.items()}
-    rep.assumptions += ["this is a numerical test, not a proof; thresholds are empirical", "periodic and target/source variants of the numerical kernels are not probed"]
+    rep.assumptions += ["this is a numerical test, not a proof; thresholds are empirical", "periodic and target/source variants: one order in double per kernel, small inputs (the reference is an explicit image sum)"]
